@@ -1,7 +1,595 @@
 package main
 
-// Replay of counterexamples against the real code (see DESIGN 3.6).
+// Replay of counterexamples against the real code.
+//
+// For a failed obligation of a function verified on its own (mode F) the solver's model fixes the
+// function's inputs: parameter values, the objects they point to, the bytes of their slices.  The
+// replay asks the solver for exactly those values (and for the outputs the model predicts), builds
+// a Go test that constructs the inputs, calls the REAL function in its own package (go test
+// -overlay: nothing is written to the repository) and prints what it observed -- results, final
+// contents of the objects and buffers passed in, or the panic.
+//
+//   nopanic obligation: confirmed when the real call panics.
+//   post obligation:    confirmed when the real call returns exactly the outputs of the model;
+//                       the clause is false on these values (that is what the model is), so the
+//                       real code violates it on this input.
+//
+// Supported inputs: integers, booleans, byte arrays, []byte, structs and pointers to structs of
+// these (unexported fields included), error results.  Anything else (maps, interfaces, strings,
+// closures) is not replayed and the VIOLATION line keeps its no-failing-input-found suffix.
+
+import (
+	"context"
+	"encoding/json"
+	"fmt"
+	"go/types"
+	"os"
+	"os/exec"
+	"path/filepath"
+	"strconv"
+	"strings"
+	"time"
+
+	"golang.org/x/tools/go/ssa"
+)
+
+const replayElems = 256
+
+type rnode struct {
+	kind  string // int | bool | array | struct | bytes | ptr | err
+	typ   types.Type
+	terms []string
+	vals  []int64
+	kids  []*rnode
+	names []string
+}
+
+type replayBuilder struct {
+	x   *Exec
+	pkg *types.Package
+	err string
+	// byte slices seen while writing the observation code / the expected observation, in the same
+	// order: used for the aliasing matrix (which outputs share memory with which)
+	obsExprs []string
+	expNodes []*rnode
+}
+
+func (b *replayBuilder) fail(f string, a ...any) *rnode {
+	if b.err == "" {
+		b.err = fmt.Sprintf(f, a...)
+	}
+	return &rnode{kind: "unsupported"}
+}
+
+func (b *replayBuilder) build(t types.Type, cells []string, mem string, depth int, isResult bool) *rnode {
+	ls := b.x.vc.ls
+	switch u := t.Underlying().(type) {
+	case *types.Basic:
+		switch {
+		case u.Info()&types.IsBoolean != 0:
+			return &rnode{kind: "bool", typ: t, terms: cells[:1]}
+		case u.Info()&types.IsInteger != 0:
+			return &rnode{kind: "int", typ: t, terms: cells[:1]}
+		case u.Info()&types.IsString != 0:
+			// a string is an abstract id with a length and characters
+			n := &rnode{kind: "str", typ: t, terms: []string{sx("strlen", cells[0])}}
+			for j := 0; j < replayElems; j++ {
+				n.kids = append(n.kids, &rnode{kind: "int", typ: types.Typ[types.Uint8], terms: []string{sx("strat", cells[0], itoa(int64(j)))}})
+			}
+			return n
+		}
+		return b.fail("type %s", typeStr(t))
+	case *types.Array:
+		if u.Len() > 256 {
+			return b.fail("array of %d", u.Len())
+		}
+		es := ls.size(u.Elem())
+		n := &rnode{kind: "array", typ: t}
+		for i := 0; i < int(u.Len()); i++ {
+			n.kids = append(n.kids, b.build(u.Elem(), cells[i*es:(i+1)*es], mem, depth, isResult))
+		}
+		return n
+	case *types.Struct:
+		n := &rnode{kind: "struct", typ: t}
+		off := 0
+		for i := 0; i < u.NumFields(); i++ {
+			sz := ls.size(u.Field(i).Type())
+			n.kids = append(n.kids, b.build(u.Field(i).Type(), cells[off:off+sz], mem, depth, isResult))
+			n.names = append(n.names, u.Field(i).Name())
+			off += sz
+		}
+		return n
+	case *types.Slice:
+		eb, ok := u.Elem().Underlying().(*types.Basic)
+		if !ok || eb.Kind() != types.Uint8 {
+			return b.fail("slice of %s", typeStr(u.Elem()))
+		}
+		n := &rnode{kind: "bytes", typ: t, terms: cells[:4]}
+		for j := 0; j < replayElems; j++ {
+			n.kids = append(n.kids, &rnode{kind: "int", typ: u.Elem(), terms: []string{sel(mem, cells[0], add(cells[1], itoa(int64(j))))}})
+		}
+		return n
+	case *types.Pointer:
+		if depth >= 2 {
+			return b.fail("pointer nesting")
+		}
+		if _, ok := u.Elem().Underlying().(*types.Struct); !ok {
+			if _, ok := u.Elem().Underlying().(*types.Array); !ok {
+				return b.fail("pointer to %s", typeStr(u.Elem()))
+			}
+		}
+		sz := ls.size(u.Elem())
+		var pc []string
+		for i := 0; i < sz; i++ {
+			pc = append(pc, sel(mem, cells[0], add(cells[1], itoa(int64(i)))))
+		}
+		n := &rnode{kind: "ptr", typ: t, terms: cells[:2]}
+		n.kids = []*rnode{b.build(u.Elem(), pc, mem, depth+1, isResult)}
+		return n
+	case *types.Interface:
+		if isResult && isErrType(t) {
+			return &rnode{kind: "err", typ: t, terms: cells[:1]}
+		}
+		return b.fail("interface %s", typeStr(t))
+	}
+	return b.fail("type %s", typeStr(t))
+}
+
+func (n *rnode) collect(out *[]*rnode) {
+	if len(n.terms) > 0 {
+		*out = append(*out, n)
+	}
+	for _, k := range n.kids {
+		k.collect(out)
+	}
+}
+
+func (b *replayBuilder) tname(t types.Type) string {
+	return types.TypeString(t, func(p *types.Package) string {
+		if p == b.pkg {
+			return ""
+		}
+		b.fail("type of package %s", p.Path())
+		return p.Name()
+	})
+}
+
+// lit: Go expression that constructs the value of the node
+func (b *replayBuilder) lit(n *rnode) string {
+	switch n.kind {
+	case "int":
+		return fmt.Sprintf("%s(%s)", b.tname(n.typ), intLit(n.typ, n.vals[0]))
+	case "bool":
+		if n.vals[0] != 0 {
+			return b.tname(n.typ) + "(true)"
+		}
+		return b.tname(n.typ) + "(false)"
+	case "array":
+		var es []string
+		for _, k := range n.kids {
+			es = append(es, b.lit(k))
+		}
+		return b.tname(n.typ) + "{" + strings.Join(es, ", ") + "}"
+	case "struct":
+		var fs []string
+		for i, k := range n.kids {
+			if n.names[i] == "_" {
+				continue
+			}
+			fs = append(fs, n.names[i]+": "+b.lit(k))
+		}
+		return b.tname(n.typ) + "{" + strings.Join(fs, ", ") + "}"
+	case "bytes":
+		if n.vals[0] == 0 {
+			return b.tname(n.typ) + "(nil)"
+		}
+		ln, cp := n.vals[2], n.vals[3]
+		if ln < 0 || cp < ln || cp > 1<<20 {
+			b.fail("slice of %d/%d bytes", ln, cp)
+			return "nil"
+		}
+		var es []string
+		for j := 0; j < replayElems && int64(j) < ln; j++ {
+			es = append(es, strconv.FormatInt(n.kids[j].vals[0]&255, 10))
+		}
+		return fmt.Sprintf("%s(verifBytes(%d, %d, []byte{%s}))", b.tname(n.typ), ln, cp, strings.Join(es, ", "))
+	case "ptr":
+		if n.vals[0] == 0 {
+			return "(" + b.tname(n.typ) + ")(nil)"
+		}
+		return "&" + b.lit(n.kids[0])
+	case "str":
+		ln := n.vals[0]
+		if ln < 0 || ln > replayElems {
+			b.fail("string of %d bytes", ln)
+			return `""`
+		}
+		var es []string
+		for j := 0; int64(j) < ln; j++ {
+			es = append(es, strconv.FormatInt(n.kids[j].vals[0]&255, 10))
+		}
+		return fmt.Sprintf("%s([]byte{%s})", b.tname(n.typ), strings.Join(es, ", "))
+	}
+	b.fail("literal of %s", n.kind)
+	return "nil"
+}
+
+func intLit(t types.Type, v int64) string {
+	if bt, ok := t.Underlying().(*types.Basic); ok && bt.Info()&types.IsUnsigned != 0 {
+		return strconv.FormatUint(uint64(v), 10)
+	}
+	return strconv.FormatInt(v, 10)
+}
+
+// observe: Go statements appending the observable content of expr to out, mirroring expect
+func (b *replayBuilder) observe(n *rnode, expr string, w *strings.Builder) {
+	switch n.kind {
+	case "int":
+		fmt.Fprintf(w, "\tout = append(out, int64(%s))\n", expr)
+	case "bool":
+		fmt.Fprintf(w, "\tout = append(out, verifB(bool(%s)))\n", expr)
+	case "err":
+		fmt.Fprintf(w, "\tout = append(out, verifB(%s != nil))\n", expr)
+	case "array":
+		for i, k := range n.kids {
+			b.observe(k, fmt.Sprintf("%s[%d]", expr, i), w)
+		}
+	case "struct":
+		for i, k := range n.kids {
+			if n.names[i] == "_" {
+				continue
+			}
+			b.observe(k, expr+"."+n.names[i], w)
+		}
+	case "bytes":
+		fmt.Fprintf(w, "\tout = append(out, int64(len(%s)))\n\tfor j := 0; j < %d; j++ {\n\t\tout = append(out, verifAt([]byte(%s), j))\n\t}\n", expr, replayElems, expr)
+		fmt.Fprintf(w, "\tsl = append(sl, []byte(%s))\n", expr)
+	case "str":
+		fmt.Fprintf(w, "\tout = append(out, int64(len(%s)))\n\tfor j := 0; j < %d; j++ {\n\t\tout = append(out, verifAt([]byte(%s), j))\n\t}\n", expr, replayElems, expr)
+	case "ptr":
+		fmt.Fprintf(w, "\tif %s == nil {\n\tout = append(out, 0)\n\t} else {\n\tout = append(out, 1)\n", expr)
+		b.observe(n.kids[0], "(*"+expr+")", w)
+		fmt.Fprintf(w, "\t}\n")
+	}
+}
+
+// expect: what observe would print for the values of the model
+func (n *rnode) expect(out *[]int64, seen *[]*rnode) {
+	switch n.kind {
+	case "int":
+		*out = append(*out, normInt(n.typ, n.vals[0]))
+	case "bool", "err":
+		if n.vals[0] != 0 {
+			*out = append(*out, 1)
+		} else {
+			*out = append(*out, 0)
+		}
+	case "array", "struct":
+		for i, k := range n.kids {
+			if n.kind == "struct" && n.names[i] == "_" {
+				continue
+			}
+			k.expect(out, seen)
+		}
+	case "bytes":
+		*seen = append(*seen, n)
+		ln := n.vals[2]
+		if n.vals[0] == 0 {
+			ln = 0
+		}
+		*out = append(*out, ln)
+		for j := 0; j < replayElems; j++ {
+			if int64(j) < ln {
+				*out = append(*out, n.kids[j].vals[0]&255)
+			} else {
+				*out = append(*out, -1)
+			}
+		}
+	case "str":
+		ln := n.vals[0]
+		*out = append(*out, ln)
+		for j := 0; j < replayElems; j++ {
+			if int64(j) < ln {
+				*out = append(*out, n.kids[j].vals[0]&255)
+			} else {
+				*out = append(*out, -1)
+			}
+		}
+	case "ptr":
+		if n.vals[0] == 0 {
+			*out = append(*out, 0)
+			return
+		}
+		*out = append(*out, 1)
+		n.kids[0].expect(out, seen)
+	}
+}
+
+// aliasMatrix: for every pair of byte slices observed, whether their backing stores overlap in the model
+func aliasMatrix(seen []*rnode, out *[]int64) {
+	for i := 0; i < len(seen); i++ {
+		for j := i + 1; j < len(seen); j++ {
+			a, b := seen[i].vals, seen[j].vals
+			ov := a[0] != 0 && a[0] == b[0] && a[3] > 0 && b[3] > 0 && a[1] < b[1]+b[3] && b[1] < a[1]+a[3]
+			if ov {
+				*out = append(*out, 1)
+			} else {
+				*out = append(*out, 0)
+			}
+		}
+	}
+}
+
+func normInt(t types.Type, v int64) int64 { return v } // uint64 above 2^63 arrives wrapped already
+
+// parseValues reads the answer of (get-value (...)): the second component of every pair, in order.
+func parseValues(out string, n int) ([]int64, bool) {
+	i := strings.Index(out, "((")
+	if i < 0 {
+		return nil, false
+	}
+	s := out[i+1:]
+	var vals []int64
+	pos := 0
+	for len(vals) < n {
+		// next pair "(" term value ")"
+		for pos < len(s) && s[pos] != '(' {
+			pos++
+		}
+		if pos >= len(s) {
+			return nil, false
+		}
+		// find the matching close
+		depth, j := 0, pos
+		for ; j < len(s); j++ {
+			if s[j] == '(' {
+				depth++
+			} else if s[j] == ')' {
+				depth--
+				if depth == 0 {
+					break
+				}
+			}
+		}
+		pair := strings.TrimSpace(s[pos+1 : j])
+		pos = j + 1
+		// the value is the last s-expression of the pair
+		var v string
+		if strings.HasSuffix(pair, ")") {
+			d, k := 0, len(pair)-1
+			for ; k >= 0; k-- {
+				if pair[k] == ')' {
+					d++
+				} else if pair[k] == '(' {
+					d--
+					if d == 0 {
+						break
+					}
+				}
+			}
+			v = pair[k:]
+		} else {
+			k := strings.LastIndexAny(pair, " \n\t")
+			v = pair[k+1:]
+		}
+		v = strings.TrimSpace(v)
+		switch {
+		case v == "true":
+			vals = append(vals, 1)
+		case v == "false":
+			vals = append(vals, 0)
+		case strings.HasPrefix(v, "(-"):
+			x, err := strconv.ParseInt(strings.TrimSpace(strings.TrimSuffix(strings.TrimPrefix(v, "(-"), ")")), 10, 64)
+			if err != nil {
+				return nil, false
+			}
+			vals = append(vals, -x)
+		default:
+			x, err := strconv.ParseInt(v, 10, 64)
+			if err != nil {
+				u, err2 := strconv.ParseUint(v, 10, 64)
+				if err2 != nil {
+					return nil, false
+				}
+				x = int64(u)
+			}
+			vals = append(vals, x)
+		}
+	}
+	return vals, true
+}
 
 func replayObligation(r *Run, dir string, o *Obligation) (string, bool) {
-	return writeReplay(dir, r.Prop, o, "solver model violates the obligation; no replay harness for this obligation class"), false
+	note := func(why string) (string, bool) {
+		return writeReplay(dir, r.Prop, o, "solver model violates the obligation; "+why), false
+	}
+	if o.Kind != "post" && o.Kind != "nopanic" {
+		return note("no replay harness for this obligation class (" + o.Kind + ")")
+	}
+	key := strings.SplitN(o.Name, "#", 2)[0]
+	fr := r.results[key]
+	if fr == nil || fr.Frame == nil || fr.Exec == nil || o.File == "" {
+		return note("no replay: the obligation does not belong to a function verified on its own")
+	}
+	fn := fr.Exec.top
+	if fn == nil || fn.Parent() != nil || len(fn.FreeVars) > 0 || fn.Pkg == nil || fn.TypeParams().Len() > 0 {
+		return note("no replay: closure or generic function")
+	}
+	x := fr.Exec
+	b := &replayBuilder{x: x, pkg: fn.Pkg.Pkg}
+	memIn, memOut := fr.Frame.entrySt.Mem, fr.Out.Mem
+	var ins, finals, results []*rnode
+	for i, p := range fn.Params {
+		var cells []string
+		for _, c := range fr.Frame.entryVals[i] {
+			cells = append(cells, b2i(c))
+		}
+		ins = append(ins, b.build(p.Type(), cells, memIn, 0, false))
+		switch p.Type().Underlying().(type) {
+		case *types.Pointer, *types.Slice, *types.Struct:
+			finals = append(finals, b.build(p.Type(), cells, memOut, 0, false))
+		default:
+			finals = append(finals, nil)
+		}
+	}
+	rt := fn.Signature.Results()
+	for i := 0; i < rt.Len() && i < len(fr.Res); i++ {
+		var cells []string
+		for _, c := range fr.Res[i] {
+			cells = append(cells, b2i(c))
+		}
+		results = append(results, b.build(rt.At(i).Type(), cells, memOut, 0, true))
+	}
+	if b.err != "" {
+		return note("no replay: " + b.err + " is outside the supported input shapes")
+	}
+	// ask the solver for the values
+	var nodes []*rnode
+	for _, n := range ins {
+		n.collect(&nodes)
+	}
+	for _, n := range finals {
+		if n != nil {
+			n.collect(&nodes)
+		}
+	}
+	for _, n := range results {
+		n.collect(&nodes)
+	}
+	var terms []string
+	for _, n := range nodes {
+		terms = append(terms, n.terms...)
+	}
+	q, err := os.ReadFile(o.File)
+	if err != nil {
+		return note("no replay: query file missing")
+	}
+	qs := strings.Replace(string(q), "(get-model)", "(get-value ("+strings.Join(terms, " ")+"))", 1)
+	qf := o.File + ".values.smt2"
+	os.WriteFile(qf, []byte(qs), 0o644)
+	defer os.Remove(qf)
+	ctx, cancel := context.WithTimeout(context.Background(), 60*time.Second)
+	outb, _ := exec.CommandContext(ctx, "z3-new", "-T:50", qf).CombinedOutput()
+	cancel()
+	if !strings.HasPrefix(strings.TrimSpace(string(outb)), "sat") {
+		return note("no replay: the solver did not reproduce its model")
+	}
+	vals, ok := parseValues(string(outb), len(terms))
+	if !ok {
+		return note("no replay: could not read the model values")
+	}
+	k := 0
+	for _, n := range nodes {
+		n.vals = vals[k : k+len(n.terms)]
+		k += len(n.terms)
+	}
+	// the test
+	var w strings.Builder
+	fmt.Fprintf(&w, "package %s\n\n// generated by govc: replay of the counterexample for obligation %s\n\nimport (\n\t\"fmt\"\n\t\"testing\"\n\t\"unsafe\"\n)\n\n", fn.Pkg.Pkg.Name(), o.Name)
+	w.WriteString("func verifBytes(n, c int, first []byte) []byte { b := make([]byte, n, c); copy(b, first); return b }\n")
+	w.WriteString("func verifB(b bool) int64 { if b { return 1 }; return 0 }\n")
+	w.WriteString("func verifAt(b []byte, j int) int64 { if j < len(b) { return int64(b[j]) }; return -1 }\n")
+	w.WriteString("func verifOverlap(a, b []byte) int64 {\n\tif cap(a) == 0 || cap(b) == 0 { return 0 }\n\tpa, pb := uintptr(unsafe.Pointer(unsafe.SliceData(a))), uintptr(unsafe.Pointer(unsafe.SliceData(b)))\n\tif pa < pb+uintptr(cap(b)) && pb < pa+uintptr(cap(a)) { return 1 }\n\treturn 0\n}\n\n")
+	w.WriteString("func TestVerifReplay(t *testing.T) {\n")
+	var argNames []string
+	for i, n := range ins {
+		fmt.Fprintf(&w, "\ta%d := %s\n", i, b.lit(n))
+		argNames = append(argNames, fmt.Sprintf("a%d", i))
+	}
+	var resNames []string
+	for i := range results {
+		fmt.Fprintf(&w, "\tvar r%d %s\n", i, b.tname(rt.At(i).Type()))
+		resNames = append(resNames, fmt.Sprintf("r%d", i))
+	}
+	call := fn.Name() + "(" + strings.Join(argNames, ", ") + ")"
+	if fn.Signature.Recv() != nil {
+		call = "a0." + fn.Name() + "(" + strings.Join(argNames[1:], ", ") + ")"
+	}
+	if len(resNames) > 0 {
+		call = strings.Join(resNames, ", ") + " = " + call
+	}
+	fmt.Fprintf(&w, "\tvar panicked any\n\tfunc() {\n\t\tdefer func() { panicked = recover() }()\n\t\t%s\n\t}()\n", call)
+	w.WriteString("\tif panicked != nil {\n\t\tfmt.Printf(\"VERIF-REPLAY-PANIC %v\\n\", panicked)\n\t\treturn\n\t}\n\tvar out []int64\n\tvar sl [][]byte\n")
+	for i, n := range results {
+		b.observe(n, fmt.Sprintf("r%d", i), &w)
+	}
+	for i, n := range finals {
+		if n != nil {
+			b.observe(n, fmt.Sprintf("a%d", i), &w)
+		}
+	}
+	w.WriteString("\tfor i := 0; i < len(sl); i++ {\n\t\tfor j := i + 1; j < len(sl); j++ {\n\t\t\tout = append(out, verifOverlap(sl[i], sl[j]))\n\t\t}\n\t}\n")
+	w.WriteString("\tfmt.Printf(\"VERIF-REPLAY-OUT %v\\n\", out)\n}\n")
+	if b.err != "" {
+		return note("no replay: " + b.err)
+	}
+	var want []int64
+	var seen []*rnode
+	for _, n := range results {
+		n.expect(&want, &seen)
+	}
+	for _, n := range finals {
+		if n != nil {
+			n.expect(&want, &seen)
+		}
+	}
+	aliasMatrix(seen, &want)
+	// run it on the tree under check
+	repo := envOr("VERIF_REPO", "/repo")
+	rel := strings.TrimPrefix(fn.Pkg.Pkg.Path(), modPath)
+	rel = strings.TrimPrefix(rel, "/")
+	tmp, err := os.MkdirTemp("", "govc_replay")
+	if err != nil {
+		return note("no replay: " + err.Error())
+	}
+	defer os.RemoveAll(tmp)
+	src := filepath.Join(tmp, "replay_test.go")
+	os.WriteFile(src, []byte(w.String()), 0o644)
+	ov := filepath.Join(tmp, "ov.json")
+	os.WriteFile(ov, []byte(fmt.Sprintf(`{"Replace": {%q: %q}}`, filepath.Join(repo, rel, "zz_verif_replay_test.go"), src)), 0o644)
+	ctx2, cancel2 := context.WithTimeout(context.Background(), 3*time.Minute)
+	defer cancel2()
+	cmd := exec.CommandContext(ctx2, "go", "test", "-overlay", ov, "-vet=off", "-count=1", "-timeout", "60s", "-run", "^TestVerifReplay$", "-v", "./"+rel+"/")
+	cmd.Dir = repo
+	cmd.Env = append(os.Environ(), "GOFLAGS=-mod=mod", "GOPROXY=off", "GOSUMDB=off", "GOTOOLCHAIN=local")
+	gout, _ := cmd.CombinedOutput()
+	got := string(gout)
+	confirmed, verdict := false, ""
+	switch {
+	case strings.Contains(got, "VERIF-REPLAY-PANIC"):
+		if o.Kind == "nopanic" {
+			confirmed, verdict = true, "the real function panics on the input of the model"
+		} else {
+			verdict = "the real function panics on this input (the model predicted a return): not counted as a reproduction of this obligation"
+		}
+	case strings.Contains(got, "VERIF-REPLAY-OUT"):
+		line := got[strings.Index(got, "VERIF-REPLAY-OUT")+len("VERIF-REPLAY-OUT"):]
+		line = strings.TrimSpace(strings.SplitN(line, "\n", 2)[0])
+		wantS := strings.ReplaceAll(fmt.Sprint(want), ",", "")
+		if o.Kind == "post" && line == wantS {
+			confirmed, verdict = true, "the real function returns exactly the outputs of the model on the input of the model; the clause is false on them"
+		} else if o.Kind == "post" {
+			verdict = "the real function's outputs differ from the model's on this input (the model relies on an abstraction): not a confirmed input"
+		} else {
+			verdict = "the real function does not panic on this input"
+		}
+	default:
+		verdict = "the replay test did not run: " + tailStr(got, 600)
+	}
+	p := filepath.Join(dir, sanitize(o.Name)+".json")
+	rp := map[string]any{
+		"property": r.Prop, "obligation": o.Name, "kind": o.Kind, "at": o.Pos, "status": o.Status, "solver": o.Solver,
+		"why":           "solver model violates the obligation; " + verdict,
+		"replay_test":   w.String(),
+		"replay_cmd":    fmt.Sprintf("save replay_test as a _test.go file of package %s (or inject it with go test -overlay) and run: go test -vet=off -run '^TestVerifReplay$' ./%s/", fn.Pkg.Pkg.Name(), rel),
+		"replay_output": tailStr(got, 3000),
+		"model_outputs": want,
+		"confirmed":     confirmed,
+		"model":         o.Model,
+	}
+	bs, _ := json.MarshalIndent(rp, "", " ")
+	os.WriteFile(p, bs, 0o644)
+	return p, confirmed
 }
+
+var _ = ssa.BuilderMode(0)
